@@ -152,6 +152,12 @@ theorem Res.runSeq_tryCatch (r : Res α) (h : Exc → Conn → Res α) :
     (disconnectR env d l).runSeq = disconnect env d l := by
   cases l <;> simp [disconnectR, disconnect]
 
+/-- never interleaved, `rethrowAfter y` is `y; raise` (the ghost mark is dropped) -/
+@[simp] theorem rethrowAfter_seq (y : R Unit) (ex : Exc) :
+    (rethrowAfter (α := α) y ex).runSeq = (y.runSeq >>= fun _ => (M.throw ex : M α)) := by
+  unfold rethrowAfter
+  cases h : (ex == .duplicateSeqNo || ex == .attribute) <;> simp [h, M.pure_bind]
+
 @[simp] theorem processLogonR_seq (env : Env) (m : Msg) : (processLogonR env m).runSeq = processLogon env m := by
   simp [processLogonR, processLogon]
 
